@@ -87,6 +87,9 @@ OpIterNext    == /\ it # NIL                                   \* C: next() afte
                  /\ StepA("iter_next", <<>>, IF it < Len(a) THEN a[it + 1] ELSE NULLV, a,
                           IF it < Len(a) THEN it + 1 ELSE Len(a) + 1)
 OpIterDel     == /\ it # NIL /\ StepA("iter_del", <<>>, TRUE, a, NIL)
+\* S (C05: dup is an equal independent copy): the program copies the iterator, deletes the original and carries on with
+\* the copy - the copy stands exactly where the original stood (at every position, including "exhausted")
+OpIterDup     == /\ it # NIL /\ StepA("iter_dup", <<>>, TRUE, a, it)
 
 (* the copy *)
 OpDup      == /\ ~bl /\ Step("dup", <<>>, TRUE, a, a, TRUE, it)
@@ -106,7 +109,7 @@ Next == \/ \E e \in Elems : OpAppend(e) \/ OpPrepend(e) \/ OpRemove(e) \/ OpInde
         \/ \E e \in Elems, i \in Idx : OpInsertAt(e, i)
         \/ \E i \in Idx : OpRemoveAt(i) \/ OpGet(i)
         \/ OpReverse \/ OpDone \/ OpCount \/ OpToArray
-        \/ OpIterNew \/ OpIterHasNext \/ OpIterNext \/ OpIterDel
+        \/ OpIterNew \/ OpIterHasNext \/ OpIterNext \/ OpIterDel \/ OpIterDup
         \/ OpDup \/ OpDelB \/ OpAdopt \/ OpBReverse
         \/ \E e \in Elems : OpBAppend(e)
         \/ \E i \in {0, -1} : OpBRemoveAt(i)
